@@ -161,6 +161,19 @@ def c15_colliding():
     return {"violates": not ok, "detail": None if ok else f"extended / projected descriptors {got}"}
 
 
+def c15_desc_extend():
+    from flow.record import RecordDescriptor
+
+    A = RecordDescriptor("c15/de", [("string", "a"), ("varint", "b")])
+    f = lambda d: [tuple(t) for t in d.get_field_tuples()]
+    before = (f(A), A.name)
+    E1, E0 = A.extend([("uint16", "c"), ("string[]", "d")]), A.extend([])
+    r = E1(a="x", b=2, c=3, d=["y"])
+    got = (f(E1), E1.name, f(E0), E0.name, (f(A), A.name) == before, f(A), [r.a, r.b, r.c, list(r.d)])
+    ok = got == ([("string", "a"), ("varint", "b"), ("uint16", "c"), ("string[]", "d")], "c15/de", [("string", "a"), ("varint", "b")], "c15/de", True, [("string", "a"), ("varint", "b")], ["x", 2, 3, ["y"]])
+    return {"violates": not ok, "detail": None if ok else f"extended type / name / extended by nothing / name / original unchanged / original / a record of it: {got}"}
+
+
 def c15_grouped_replace(named=None):
     from flow.record import GroupedRecord, RecordDescriptor
 
@@ -384,4 +397,4 @@ def c15_replace_self(kind="plain"):
         got = f"{type(e).__name__}: {e}"
     return {"violates": got != ("new", 4, "old"), "detail": f"_replace(self='new') on a {kind} record with the fields self='old', n=4: {got!r}"}
 
-CALLS = {"c15_replace_self": c15_replace_self, "c15_copy": c15_copy, "c15_rewrite_history": c15_rewrite_history, "c15_extend": c15_extend, "c15_timestamps": c15_timestamps, "c15_grouped_view": c15_grouped_view, "c15_colliding": c15_colliding, "c15_grouped_replace": c15_grouped_replace, "c15_grouped_collision": c15_grouped_collision, "c15_ts_collision": c15_ts_collision, "c15_ts_unset": c15_ts_unset, "c15_grouped": c15_grouped, "c15_rewrite": c15_rewrite, "c15_sweep": c15_sweep}
+CALLS = {"c15_desc_extend": c15_desc_extend, "c15_replace_self": c15_replace_self, "c15_copy": c15_copy, "c15_rewrite_history": c15_rewrite_history, "c15_extend": c15_extend, "c15_timestamps": c15_timestamps, "c15_grouped_view": c15_grouped_view, "c15_colliding": c15_colliding, "c15_grouped_replace": c15_grouped_replace, "c15_grouped_collision": c15_grouped_collision, "c15_ts_collision": c15_ts_collision, "c15_ts_unset": c15_ts_unset, "c15_grouped": c15_grouped, "c15_rewrite": c15_rewrite, "c15_sweep": c15_sweep}
